@@ -1,5 +1,6 @@
 import GrinVerif.Lemmas.NrdRun
 import GrinVerif.Lemmas.NrdChain
+import GrinVerif.Lemmas.NrdWalk
 /-! Property C13, clause "a no-recent-duplicate kernel is refused if the same excess occurred fewer
 than its relative height blocks earlier **on the same fork** … re-evaluated correctly when blocks
 are re-applied or rewound during a reorganisation" — for the data structure the node really uses:
@@ -342,6 +343,26 @@ theorem rebuild_window (old win : List (Blk ε)) (hp : PathOK 0 (old ++ win)) (k
   · rw [w2.abs e]
     have := sApplyBlocks_ok hcut e
     simpa using this
+
+/-- **the header walk** of `verify_kernel_pos_index` (one pass over the kernel MMR from
+`prev_size + 1`, the current header advanced lazily with `while current_pos >
+current_header.kernel_mmr_size`, each NRD kernel applied at the current header's height) gives every
+kernel the height of the block it belongs to: it equals the block-wise rebuild of
+`rebuild_window`, for every path with consistent kernel MMR sizes — including blocks without NRD
+kernels, over which the header is not advanced until a later NRD kernel needs it. -/
+theorem rebuild_header_walk (kv : KV ε) (b : Blk ε) (bs : List (Blk ε)) (c : Nat)
+    (hp : PathOK c (b :: bs)) :
+    verifyKernelPosIndexWalk kv b.hdr (bs.map Blk.hdr) ((b :: bs).flatMap (·.kernels)) =
+      verifyKernelPosIndex kv (b :: bs) :=
+  verifyKernelPosIndexWalk_eq kv b bs c hp
+
+/-- three blocks, the middle one without NRD kernel: the walk jumps two headers at position 4 -/
+example :
+    let bs : List (Blk Nat) := [⟨5, 0, 1, [(⟨5, some 1⟩, 1)]⟩, ⟨6, 1, 3, [(⟨9, none⟩, 2)]⟩, ⟨7, 3, 4, [(⟨5, some 2⟩, 4)]⟩]
+    PathOK 0 bs ∧
+    abs (verifyKernelPosIndexWalk ({} : KV Nat) (5, 1) [(6, 3), (7, 4)] [(⟨5, some 1⟩, 1), (⟨9, none⟩, 2), (⟨5, some 2⟩, 4)]).kv 5
+      = [⟨4, 7⟩, ⟨1, 5⟩] ∧
+    advanceHeader (5, 1) [(6, 3), (7, 4)] 4 = some ((7, 4), []) := by decide
 
 /-- `init_recent_kernel_pos_index`: the blocks at or above the cutoff height
 `head.height.saturating_sub(window)` of a path whose heights are sorted are a suffix of the path,
